@@ -6,7 +6,7 @@ from pyvc.vals import Val, SeqV, NONE, fresh
 from pyvc.unit import Unit, LoopSpec, LemmaUnit
 from pyvc.models import UFunc, Rec, Fn, Nop, QueueReader, SpecFn, ThreadCtor, ThreadObj, PipeWriter
 from pyvc.core import St, Module, box, Unsupported, KwPack, StarPack, Obj, unbox_handle, PyTuple
-from contracts.c12 import CollectResult, ProcessRun, ProcessRunNoTarget, KwDict, remote_exc, CTX
+from contracts.c12 import CollectResult, ProcessRun, ProcessRunNoTarget, KwDict, remote_exc, CTX, StartUnit
 
 ASSUMPTIONS = (
     'multiprocessing.Queue: records put by the child are flushed to the pipe before the child process exits (feeder thread joined at exit) and are received FIFO, each by exactly one reader',
@@ -178,53 +178,6 @@ class ChildRunLogging(ProcessRun):
                       z3.Or(self.has_handlers, s.ghost['root_level'] == V.intv(z3.IntVal(10))))
 
 
-class StartUnit(Unit):
-    prop = 'C20'
-    file = CTX
-    qual = 'SpawnProcess.start'
-    ignore_stmts = (r'self\._finalizer_ = .*',)
-    canaries = (('log reader started on another queue', 'args=(self._logger_queue_,),', 'args=(MP_SPAWN_CTX.Queue(),),', 'reads this process'),
-                ('collector thread not started', '        self._result_collector_thread_.start()', '        pass', 'both started'))
-
-    def setup(self, ex):
-        st = St()
-        self.logq = z3.Const('logger_queue', Val)
-        self.run_logger = Fn(lambda e, s, a, k, n: [('ok', s, NONE)], name='_run_logger')
-        self.collect = Fn(lambda e, s, a, k, n: [('ok', s, NONE)], name='_collect_result')
-        self.me = Rec(ex, 'self', methods={'_run_logger': self.run_logger, '_collect_result': self.collect}).init(st, _logger_queue_=self.logq, name=z3.String('name'), daemon=z3.Bool('daemon'))
-        st.env['self'] = self.me
-        ex.globals['Thread'] = ThreadCtor()
-        from pyvc.models import FutureCtor
-        ex.globals['concurrent.futures.Future'] = FutureCtor()
-        ex.globals['MP_SPAWN_CTX'] = Rec(ex, 'ctx', methods={'Queue': Fn(lambda e, s, a, k, n: [('ok', s, fresh('otherq'))])})
-        st.ghost['os_started'] = z3.BoolVal(False)
-        return st
-
-    def on_call(self, ex, st, e, src):
-        if src == 'super().start':
-            st = st.fork()
-            st.ghost['os_started'] = z3.BoolVal(True)
-            return [('ok', st, NONE)]
-        if src == 'getattr':
-            return [('ok', st, st.env['self'].get(st, 'daemon'))]
-        return None
-
-    def post(self, ex, outs):
-        for k, s, p in outs:
-            if k in ('normal', 'return'):
-                th = [o for o in ex.objs.values() if isinstance(o, ThreadObj)]
-                lg = [t for t in th if t.target is self.run_logger]
-                co = [t for t in th if t.target is self.collect]
-                ok = len(th) == 2 and len(lg) == 1 and len(co) == 1
-                args = unbox_handle(ex, lg[0].args) if ok else None
-                ok = ok and isinstance(args, PyTuple) and len(args.items) == 1
-                ex.oblige(s, 'exit: the log reader thread reads this process\'s log queue, the result collector runs _collect_result; both started after the OS process',
-                          z3.And(z3.BoolVal(bool(ok)), box(ex, args.items[0]) == self.logq, lg[0].get(s, 'started'), co[0].get(s, 'started'), s.ghost['os_started'],
-                                 z3.BoolVal(self.me.get(s, '_logger_thread_') is lg[0])) if ok else z3.BoolVal(False))
-            else:
-                ex.oblige(s, 'exit: does not raise', False)
-
-
 class C20Lemma(LemmaUnit):
     prop = 'C20'
     qual = 'lemma(C20)'
@@ -310,7 +263,7 @@ class GetContext(Unit):
         for k, s, p in outs:
             if k in ('normal', 'return'):
                 mine = z3.Or(self.method == NONE, self.method == box(ex, z3.StringVal('spawn')))
-                ex.oblige(s, 'exit: for method None / "spawn" returns this very context; anything else is the stdlib\'s answer', z3.If(mine, z3.BoolVal(unbox_handle(ex, p) is self.me), z3.BoolVal(unbox_handle(ex, p) is not self.me)) if True else None)
+                ex.oblige(s, 'exit: for method None / "spawn" returns this very context; anything else is the stdlib\'s answer', z3.If(mine, z3.BoolVal(unbox_handle(ex, p) is self.me), z3.And(z3.BoolVal(unbox_handle(ex, p) is not self.me), box(ex, p) == self.other)))
             else:
                 ex.oblige(s, 'exit: does not raise', False)
 
